@@ -161,6 +161,26 @@ R3 = {
  "C17": " Also: a sub-rule argument is recorded with the span and text its own candidate consumed; can_guess definition.",
  "C18": " Also: the derived output name is the input path after the path library replaced its extension with the one chosen by the format match.",
 }
+R4 = {
+ "C01": " Also (round 4): arguments of an instruction are evaluated in the context of the place where it stands, the rule body in one deeper context holding exactly its parameters; the prefix-index agreement rules (case, tokens); eval_address is handed the pass's own can_guess().",
+ "C02": " Also (round 4): stability comparisons of sized values are value-and-size comparisons (is_identical) unless audited as size-blind-safe; an instruction is statically known only when all its candidates are.",
+ "C03": " Also (round 4): the panic-guarded parameter domains of the formatters against the validators the driver applies; locating a diagnostic counts characters (no slicing at a byte index).",
+ "C06": " Also (round 4): alignment errors are only waived under the pass's own can_guess().",
+ "C07": " Also (round 4): exact_part_count counts Exact parts only.",
+ "C08": " Also (round 4): instruction flag = all candidates statically known.",
+ "C09": " Also (round 4): the driver is given opts.max_iterations unchanged; FIX2 size-aware; FIX3; instruction flag over all candidates.",
+ "C11": " Also (round 4): a group that names a file always reaches write_bytes; get_blocks starts a new block at every gap.",
+ "C12": " Also (round 4): stable sort of the listing rows; a label's bank is the resolver context's bank; composite expression nodes span their first operand (sibling agreement).",
+ "C13": " Also (round 4): a field of a `{...}` directive block is located at its own name token; composite expression nodes span their first operand.",
+ "C14": " Also (round 4): the empty-file exemption of the range rule cannot be taken by a test of a requested length.",
+ "C16": " Also (round 4): a define's value keeps the width of its text (BigInt width writers audited); every sub-expression is asked should_propagate() before use (an unknown operand is `unknown`, not a type error).",
+ "C17": " Also (round 4): argument-context and new_deepened (only the depth is inherited).",
+ "C18": " Also (round 4): a name is derived only for groups that are written and unnamed; -d honoured first (COND define rules); the real file server creates (truncates) and writes.",
+ "C19": " Also (round 4): LIM2 inspects operator-trait arithmetic on references to primitive integers.",
+}
+for _k, _v in R4.items():
+    if _k in P and "text" in P[_k] and _v not in P[_k]["text"]:
+        P[_k]["text"] += _v
 for _k, _v in R3.items():
     if _k in P and "text" in P[_k] and _v not in P[_k]["text"]:
         P[_k]["text"] += _v
